@@ -125,6 +125,9 @@
 #define AAF_PERIOD		(NSEC_PER_SEC * AAF_NUM_SAMPLES / AAF_SAMPLE_RATE)
 #define MCLK_PERIOD		AAF_PERIOD
 #define MCLKLIST_TS_PER_CRF	(CRF_SAMPLE_RATE / CRF_TIMESTAMPS_PER_SEC)
+/* Media clock timestamps inspected at most when looking up an AVTP time
+ * (one second worth of media clock). */
+#define MCLK_LOOKUP_MAX_TRIES	(NSEC_PER_SEC / MCLK_PERIOD)
 
 #define NSEC_PER_SEC		1000000000ULL
 #define NSEC_PER_MSEC		1000000ULL
@@ -261,8 +264,13 @@ static uint64_t get_next_mclk_timestamp(void)
 static uint64_t mclk_lookup(uint32_t avtp_time)
 {
     uint64_t mclk_timestamp = get_next_mclk_timestamp();
+    unsigned int tries = 0;
 
-    while (mclk_timestamp % (1ULL << 32) != avtp_time)
+    /* The AVTP time comes from the network: do not search for ever if no
+     * media clock timestamp matches it.
+     */
+    while (mclk_timestamp % (1ULL << 32) != avtp_time &&
+                        tries++ < MCLK_LOOKUP_MAX_TRIES)
         mclk_timestamp = get_next_mclk_timestamp();
 
     return mclk_timestamp;
@@ -760,7 +768,13 @@ static int aaf_talker_recv_pdu(int fd_sk, int fd_timer)
     /* Arm the timer for the first time to start sending AAF stream. */
     if (first_aaf_pdu) {
         struct itimerspec itspec = { 0 };
-        uint64_t ts = mclk_dequeue_ts();
+        uint64_t ts;
+
+        /* Nothing recovered yet (the PDU was not a valid CRF PDU) */
+        if (STAILQ_EMPTY(&mclk_timestamps))
+            return 0;
+
+        ts = mclk_dequeue_ts();
 
         first_aaf_pdu = false;
 
